@@ -1,14 +1,18 @@
 """C13 — mesh size doubles after a successful poll (up to a cap), shrinks after a failure."""
-from harness import comp_grid as G, runlevel as R, skel as S
+from harness import comp_grid as G, comp_loop as L, runlevel as R, skel as S
 
-PROPS = ["Props/C13.v", "Props/C13grid.v", "Props/C13hist.v"]
-TRANSLATORS = ["grid"]
+PROPS = ["Props/C13.v", "Props/C13grid.v", "Props/C13hist.v", "Props/C13loop.v"]
+TRANSLATORS = ["grid", "loop"]
 THEOREMS = ["C13_mesh_invariant", "C13_poll_update", "C13_poll_best_is_max", "C13_only_polls_change_mesh", "C13_tolmesh_msg", "C13_tolmesh_msg_run",
             # Props/C13grid.v: about gen/Src_grid.v (mesh sizes and exponents, tol_mesh snapping, forcing function, _eval_improvement_)
             "C13_mesh_is_power", "C13_mesh_order", "C13_tolmesh_test_is_exponent_test", "C13_search_exponent_is_source", "C13_search_mesh_le_poll_mesh",
             "C13_tol_mesh_snap_least_power", "C13_tol_mesh_snap_same_stop", "C13_sufficient_improvement", "C13_improvement_without_sd", "C13_improvement_with_sd",
             # Props/C13hist.v: the history-based decisions in terms of recorded values (side condition hist_ok)
-            "C13_quarter_means_stalling", "C03_stall_message_in_history_terms"]
+            "C13_quarter_means_stalling", "C03_stall_message_in_history_terms",
+            # Props/C13loop.v: the decision logic of Model/Skeleton.v equals gen/Src_loop.v, regenerated from optimize / _search_step_ / _poll_step_
+            "C13_mesh_rule_is_source", "C13_poll_loop_is_source", "C13_good_poll_is_source", "C13_good_poll_negative_SI_refuted",
+            "C13_poll_decision_is_source", "C13_loop_head_is_source", "C03_termination_is_source", "C03_loop_iteration_is_source",
+            "C04_improvement_rule_is_source", "C13_stobads_sites_pinned"]
 AXIOM_THEOREMS = ["C13_tol_mesh_snap_least_power", "C13_tol_mesh_snap_same_stop", "C13_sufficient_improvement", "C13_improvement_with_sd"]
 # the theorems over R (snapping, forcing function, _eval_improvement_ with SDs) use the standard library's real numbers
 ALLOWED_AXIOMS = ["ClassicalDedekindReals.sig_forall_dec", "ClassicalDedekindReals.sig_not_dec",
@@ -26,6 +30,10 @@ TRUSTED = ["Coq 8.16.1 kernel + vm_compute", "hand-written model Model/Skeleton.
            "binary64 log / divide / ceil decide the snapping exponent: within 2^-48 (relative) of a power of two the code may choose the neighbouring exponent (counted as grid_snap_rounding_observations)",
            "default poll_mesh_multiplier = 2, max_poll_grid_number = 0, search_mesh_expand = 0 (the theorems state these premises)"]
 ASSUMPTIONS = ["stobads = False (default)"]
+TRUSTED += ["translate/loop.py regenerates the decision logic of optimize() / _search_step_ / _poll_step_ on every run (gen/Src_loop.v; fail-closed ast whitelist: every statement of a located region "
+            "must be understood, a second writer of the loop state anywhere in the package is a broken tie); validated each run: the generated definitions evaluated by Coq on every recorded loop "
+            "iteration of the panel against the recorded outcome (harness/comp_loop.py); the oracle floats (_eval_improvement_ results, sufficient improvement) are inputs; a mesh size is read "
+            "through its exponent (poll_mesh_multiplier = 2)"]
 
 
 def specs_for(ctx):
@@ -62,11 +70,16 @@ def tie(ctx, broken):
         for a, b in zip(ks[::2], ks[1::2]):
             hist[b - a] = hist.get(b - a, 0) + 1
     ctx.coverage["poll_mesh_exponent_deltas"] = {str(k): v for k, v in sorted(hist.items())}
+    # the decision logic regenerated from the source (gen/Src_loop.v): the GENERATED definitions on every recorded iteration of these runs
+    L.tie_loop(ctx, broken, out, "c13")
+    R.apply_monitor(ctx, out, L.mon_loop)
     # the mesh arithmetic regenerated from the source (gen/Src_grid.v) against the real code: components, real objects, these runs
     G.tie_grid(ctx, broken, traces=[tr for tr, _ in out])
 
 
 def search(ctx, broken):
+    if L.search_loop(ctx, broken, [R.mon_c13, R.mon_c03]):
+        return True
     found = G.search_grid(ctx, broken) if any("grid" in b[0] or b[0] == "coq_build" for b in broken) else False
     if R.truncate_search(ctx, R.mon_c13):
         return True
@@ -80,4 +93,4 @@ def search(ctx, broken):
 def replay(ctx, rp):
     if str(rp.get("key", "")).startswith("grid:"):
         return G.replay_grid(ctx, rp)
-    return R.generic_replay(ctx, rp, [R.mon_c13])
+    return R.generic_replay(ctx, rp, [R.mon_c13, L.mon_loop])
